@@ -172,6 +172,16 @@ func (p sockLikePipe) SetWriteDeadline(t time.Time) error {
 	return nil
 }
 
+// tempErr is a transient accept failure (what EMFILE looks like): a net.Error that is temporary but not a timeout.
+type tempErr struct{}
+
+func (tempErr) Error() string   { return "accept: too many open files (injected)" }
+func (tempErr) Timeout() bool   { return false }
+func (tempErr) Temporary() bool { return true }
+
+// InjectTempError makes the next Accept fail with a temporary error that is not a timeout.
+func (l *FakeListener) InjectTempError() { l.ch <- acceptItem{err: tempErr{}} }
+
 // InjectTimeout makes the next Accept return a timeout error.
 func (l *FakeListener) InjectTimeout() { l.ch <- acceptItem{err: timeoutErr{}} }
 
